@@ -67,7 +67,7 @@ def run(ctx):
     build("vadt")
     if ctx.replay:
         rp = json.load(open(ctx.replay))
-        args = ["c14", "--replay", ctx.replay, "--out", ctx.path("res.json")]
+        args = ["c14e2e" if rp.get("layer") == "operator" else "c14", "--replay", ctx.replay, "--out", ctx.path("res.json")]
         if "palette" in rp:
             args += ["--palette", rp["palette"]]
         run_harness(ctx, "vadt", args)
@@ -125,6 +125,20 @@ def run(ctx):
     res = json.load(open(ctx.path("res.json")))
     for v in res["violations"][:5]:
         report_violation(ctx, v)
+    # operator level: the same build / probe tables joined by HashJoinExec with small batch sizes (paged lookup inside
+    # the operator); dense integer keys take the ArrayMap path, strings / sparse integers the JoinHashMapU32 path
+    op_cases = [c for c in cases if c["d"] == 0 and len(c["hist"]) >= 1][: (700 if ctx.quick else 6000)]
+    write_ndjson(ctx.path("opcases.ndjson"), op_cases)
+    _, _ = run_harness(ctx, "vadt", ["c14e2e", "--in", ctx.path("opcases.ndjson"), "--out", ctx.path("op.json")], timeout=3000)
+    op = json.load(open(ctx.path("op.json")))
+    if op["tool_errors"]:
+        raise ToolError("operator-level harness errors: " + "; ".join(op["tool_errors"][:3]))
+    for v in op["violations"][:5]:
+        report_violation(ctx, dict(v, layer="operator"))
+    am = op["runs_that_built_an_array_map"]
+    if (len(op["per_config"]) != 16 or op["hash_join_plans"] < op["evaluations"] * 0.9 or op["distinct_nontrivial"] < 100
+            or am.get("DenseI32", 0) < 50 or am.get("DenseI64", 0) < 50 or am.get("Utf8", 0) != 0):
+        raise ToolError(f"vacuity (operator level): { {k: v for k, v in op.items() if k != 'violations'} }")
     if res["distinct_nontrivial"] < 50 or res["fastpath_probe_cases"] == 0 or res["resume_mid_chain"] == 0:
         raise ToolError(f"vacuity: non-trivial lookups {res['distinct_nontrivial']}, fast-path {res['fastpath_probe_cases']}, mid-chain resumes {res['resume_mid_chain']}")
     write_evidence(ctx, "model_checking", {
@@ -141,11 +155,12 @@ def run(ctx):
         "distinct_nontrivial": res["distinct_nontrivial"],
         "fastpath_probe_cases": res["fastpath_probe_cases"], "resume_mid_chain": res["resume_mid_chain"],
         "drift_page_boundaries": res["drift_page_boundaries"], "drift_samples": res["drift_samples"],
-        "violations_total": res["violations_total"],
+        "violations_total": res["violations_total"] + op["violations_total"],
+        "operator_level": {k: v for k, v in op.items() if k not in ("violations", "tool_errors")},
         "rule": "a case is a reachable state of JoinHashMap.tla (insertion history of update_from_iter batches incl. NULL-key rows, batch direction, deleted offset with pruned ghost rows) x sampled probes; non-trivial = the expected Lookup is non-empty; distinct = distinct (history, probe)",
     }, assumptions=[
         "PruningJoinHashMap (private module) is not driven directly; its post-pruning state is emulated on JoinHashMapU64/U32 with deleted_offset d > 0 and rows below d referenced from head/next",
-        "ArrayMap (private module joins::array_map) is not driven",
+        "ArrayMap (private module joins::array_map) is driven only through HashJoinExec (SQL inner joins over MemTables, dense Int32/Int64 keys, batch sizes 1/2/3/8192), compared as a bag of (build row, probe row) pairs; the operator's array_map_created_count metric is read to confirm which runs took the ArrayMap path",
         "page boundaries / returned offsets are compared with the model's Page() but only counted as drift; the verdict uses the concatenation, the per-page limit and termination",
         "binding demonstrated while building: corrupting Scan's resume rule in the spec makes TLC reject SpecOK; see final report for code-side mutations",
     ])
